@@ -110,6 +110,9 @@ type Err struct {
 	Class  string // coarse class for coverage: unbound, arity, type, user, …
 
 	Rethrown int // how often (rethrow) re-raised this error
+	// Swallowed counts how often an ignore-errors form replaced this very error object
+	// by nil (an error can go on after that: (rethrow) re-raised it inside the form)
+	Swallowed int
 }
 
 var (
